@@ -119,10 +119,19 @@ struct Probe {
     max_fdt_receivers: usize,
     max_objects: usize,
     max_sessions: usize,
+    /// public API: MultiReceiver::nb_objects_error() - maximum seen, and whether it ever disagreed with the hook's lists
+    max_api_err: usize,
+    api_err_mismatch: Option<(usize, usize)>,
 }
 
 fn observe(rx: &MultiReceiver, p: &mut Probe) {
     let st = rx.verif_stats();
+    let api = rx.nb_objects_error();
+    let hook: usize = st.iter().map(|s| s.objects_error).sum();
+    p.max_api_err = p.max_api_err.max(api);
+    if api != hook && p.api_err_mismatch.is_none() {
+        p.api_err_mismatch = Some((api, hook));
+    }
     p.max_sessions = p.max_sessions.max(st.len());
     for s in &st {
         p.max_err_list = p.max_err_list.max(s.objects_error);
@@ -163,7 +172,7 @@ fn child(args: &[String]) -> ! {
     let baseline = alloc::live();
     let builder = std::rc::Rc::new(NullBuilder);
     let mut rx = MultiReceiver::new(builder.clone(), Some(cfg), false);
-    let mut p = Probe { max_cached: 0, max_cached_pkts: 0, max_blocks_bytes: 0, max_err_list: 0, max_fdt_current: 0, max_fdt_receivers: 0, max_objects: 0, max_sessions: 0 };
+    let mut p = Probe { max_cached: 0, max_cached_pkts: 0, max_blocks_bytes: 0, max_err_list: 0, max_fdt_current: 0, max_fdt_receivers: 0, max_objects: 0, max_sessions: 0, max_api_err: 0, api_err_mismatch: None };
     let psize = 1000usize;
     let payload = rng.bytes(psize);
     let mut pushes = 0u64;
@@ -447,6 +456,13 @@ fn child(args: &[String]) -> ! {
                 bw_peak, bw_total, cache, block_bytes, allowed, p.max_blocks_bytes), json!({"peak": bw_peak, "counter": p.max_blocks_bytes}));
         }
     }
+    // "beyond it the object is abandoned and counted in error": the public counter must say so
+    if let Some((api, hook)) = p.api_err_mismatch {
+        add("error_count_api", format!("nb_objects_error() returned {} while the sessions hold {} failed objects", api, hook), json!(null));
+    }
+    if s.kind == "cache_one_object" && saturated && s.max_err > 0 && p.max_api_err == 0 {
+        add("abandoned_not_counted", format!("one object exceeded object_max_cache_size {} several times over and nb_objects_error() never left 0 (max_objects_error {})", cache, s.max_err), json!(null));
+    }
     if p.max_err_list > s.max_err {
         add("error_list_limit", format!("list of failed objects reached {} entries, max_objects_error is {}", p.max_err_list, s.max_err), json!(null));
     }
@@ -518,7 +534,7 @@ fn child(args: &[String]) -> ! {
     drop(rx);
     drop(builder);
     let out = json!({"scenario": format!("{:?}", s), "pushes": pushes, "max_cached_bytes": p.max_cached, "max_block_bytes": p.max_blocks_bytes,
-        "max_error_list": p.max_err_list, "max_fdt_current": p.max_fdt_current, "max_fdt_receivers": p.max_fdt_receivers, "max_objects": p.max_objects, "max_sessions": p.max_sessions,
+        "max_error_list": p.max_err_list, "max_nb_objects_error_api": p.max_api_err, "max_fdt_current": p.max_fdt_current, "max_fdt_receivers": p.max_fdt_receivers, "max_objects": p.max_objects, "max_sessions": p.max_sessions,
         "blocks_waiting_peak": bw_peak, "blocks_sent_bytes": bw_total, "live_marks": live_marks, "peak_live": alloc::peak() - baseline, "released": released, "violations": viol});
     println!("R {}", out);
     std::process::exit(0);
